@@ -165,6 +165,13 @@ def run_case(case, ctx):
                 await asyncio.sleep(5.0)
                 self.set_output(1)
         Slow('slow', init_timeout=9)
+        if case.get('persist'):
+            # persistent storage + a persistent block that is still uninitialised (it waits
+            # for its first value) at the moment of the stop: its state cannot be saved
+            edzed.Input('pwait', persistent=True)
+            edzed.Timer('ptimer', persistent=True)
+            edzed.get_circuit().set_persistent_data(harness.Storage())
+            ctx.count('stopped_with_unsaveable_persistent_blocks')
         sim = harness.Sim()
         state['sim'] = sim
         state['t0'] = loop.time()
@@ -522,6 +529,9 @@ def gen(ctx):
                 if idx % ctx.nshards == ctx.shard:
                     yield {'mode': mode, 'guard': None, 'stop_data': sd, 'puts': [], 'stop': stop,
                            'preinit_stop': True, 'stop_dur': 1.0 if stop == 1.0 else 0}, True
+                    yield {'mode': mode, 'guard': None, 'stop_data': sd, 'puts': [], 'stop': stop,
+                           'preinit_stop': True, 'stop_dur': 1.0 if stop == 1.0 else 0,
+                           'persist': True}, True
     rng = ctx.rng('random')
     nrand = 300 if quick else 60000
     for i in range(nrand):
